@@ -557,6 +557,10 @@ impl Connect {
             return Err(MqttError::MalformedPacket);
         }
         let connect_flags = data[cursor];
+        if connect_flags & 0b0000_0001 != 0 || (connect_flags >> 3) & 0x03 == 3 {
+            // The reserved flag MUST be 0 [MQTT-3.1.2-3]; Will QoS 3 is malformed [MQTT-3.1.2-12]
+            return Err(MqttError::MalformedPacket);
+        }
         let connect_flags_buf = [connect_flags];
         cursor += 1;
 
